@@ -28,7 +28,8 @@ class ComposedNode(ConfigNode):
         kwargs.pop('safe', None)
         kwargs.update(self._get_child_kwargs())
         nodes_memo = nodes_memo if nodes_memo is not None else {}
-        self._children = { name: ConfigNode(child, **kwargs, nodes_memo=nodes_memo) for name, child in children.items() } # pylint: disable=unexpected-keyword-arg
+        # (None is not an object two entries could share: value-less entries of a tagged yaml container arrive as such)
+        self._children = { name: ConfigNode(child, **kwargs, nodes_memo=(nodes_memo if child is not None else None)) for name, child in children.items() } # pylint: disable=unexpected-keyword-arg
 
     class ayns(Namespace):
         def set_child(self, name, value):
